@@ -100,10 +100,8 @@ let zh u = BZ.rem (z_of_n u) z65536
 let sym_key u = let q = zq u in if BZ.is_odd q then "k" ^ BZ.to_string (BZ.div q (BZ.of_int 2)) else "d" ^ BZ.to_string (BZ.div q (BZ.of_int 2))
 let sym_eid u = let q = zq u in if BZ.is_odd q then "e" ^ BZ.to_string (BZ.div q (BZ.of_int 2)) ^ "h" ^ BZ.to_string (zh u) else "g" ^ BZ.to_string (BZ.div q (BZ.of_int 2))
 
-let txs : (string, int) Hashtbl.t = Hashtbl.create 16
-let sym_tx u = let k = string_of_n u in
-  match Hashtbl.find_opt txs k with Some i -> "t" ^ string_of_int i
-  | None -> let i = Hashtbl.length txs in Hashtbl.add txs k i; "t" ^ string_of_int i
+(* the model numbers transactions by accepted appends, as the harness does *)
+let sym_tx u = "t" ^ string_of_n u
 
 let show_event e =
   Printf.sprintf "ev(id=%s pk=%s pid=%s tx=%s seq=%s ver=%s st=st%s body=ok)" (sym_eid e.e_id) (sym_key e.e_pk) (string_of_n e.e_pid)
@@ -207,7 +205,7 @@ let rec range_n a b = if BZ.gt a b then [] else a :: range_n (BZ.succ a) b
 let dedup l = List.fold_left (fun acc x -> if List.mem x acc then acc else acc @ [x]) [] l
 
 let history line =
-  Hashtbl.reset txs; Hashtbl.reset gens;
+  Hashtbl.reset gens;
   let (hs, cs) = match split_str "::" line with [a; b] -> (a, b) | _ -> bad "no ::" in
   let h = parse_hdr (split_ws hs) in
   let cfg = { rc_parts = n_of_z (BZ.of_int h.p); rc_buckets = n_of_z (BZ.of_int h.b); rc_strict = h.strict } in
@@ -217,10 +215,10 @@ let history line =
   let outs = List.map (fun toks ->
     try
       let (rq, tss) = request h toks in
-      (* admissible watermarks of the unconfirmed partition: anything from the confirmed to the written *)
+      (* admissible watermarks of the partition with an unawaited append: from the confirmed to the written *)
       let states = match !wait with
         | None -> [!st]
-        | Some pid ->
+        | Some (pid, _) ->
           let lo = z_of_n (!st.rs_wm pid) and hi = z_of_n (rs_next_seq (!st.rs_logs (rs_bucket cfg pid)) pid) in
           List.map (fun w -> rs_confirm_upto !st pid (n_of_z w)) (range_n lo hi) in
       let results = List.map (fun s -> rs_handle SubFixed cfg s rq) states in
@@ -229,11 +227,14 @@ let history line =
       let st1 = { st1 with rs_wm = !st.rs_wm } in
       note_gens out1;
       let shown = dedup (List.map (fun (_, o) -> show tss o) results) in
-      let st2 = match !wait with Some pid -> rs_confirm cfg st1 pid | None -> st1 in
+      (* the harness now awaits the earlier append: the watermark reaches at least what that append wrote *)
+      let st2 = match !wait with
+        | Some (pid, upto) -> if BZ.lt (z_of_n (st1.rs_wm pid)) (z_of_n upto) then rs_confirm_upto st1 pid upto else st1
+        | None -> st1 in
       wait := None;
       let unq = (match toks with c :: _ -> String.length c > 1 && c.[String.length c - 1] = '~' | [] -> false) in
       let st3 = match pid_of_reply out1 with
-        | Some pid -> if unq then (wait := Some pid; st2) else rs_confirm cfg st2 pid
+        | Some pid -> if unq then (wait := Some (pid, rs_next_seq (st2.rs_logs (rs_bucket cfg pid)) pid); st2) else rs_confirm cfg st2 pid
         | None -> st2 in
       st := st3;
       String.concat " || " shown
